@@ -218,6 +218,8 @@ DRIVES = {
     "arity": dict(comps=["A", "B", "C", "R", "S", "F1", "F2", "F3", "F4", "F5", "F6", "F7"], maxent=10,
                   extra=dict(arity=True, typedobs=True, observers=3, queries=2),
                   quick=dict(count=120, len=250), thorough=dict(count=3000, len=400)),
+    "mem": dict(comps=["A", "P", "Q"], maxent=24, extra=dict(mem=True, gcstress=True, resetp=10), quick=dict(count=120, len=300), thorough=dict(count=2500, len=500)),
+    "mem64": dict(comps=["P", "B", "Q"], maxent=150, extra=dict(mem=True, gcstress=True), quick=dict(count=40, len=900), thorough=dict(count=600, len=1500)),
     "plain": dict(comps=["A", "B", "C"], maxent=40, quick=dict(count=100, len=400), thorough=dict(count=1500, len=800)),
 }
 
@@ -230,17 +232,19 @@ CELLS = {
     "exch8":    dict(path="exchange", caps=[8], relst="idx", perm=True),
     "typedfill": dict(path="typed", caps=[1], relst="idx", fill=62),
     "typed53":  dict(path="typed", caps=[5, 3], relst="idx"),
+    "mapt1":    dict(path="typed", caps=[1], relst="idx", mapt=True),
+    "mapt42":   dict(path="typed", caps=[4, 2], relst="typ", mapt=True, perm=True),
     "unsafe3":  dict(path="unsafe", caps=[3], relst="id"),
 }
 
 # property -> list of (family, [cells]) ; quick picks a seed-chosen subset of cells
 PLANS = {
-    "C01": [("core", ["typed1", "unsafe1", "exch8", "typed11", "typedfill"]), ("rel", ["typed1", "unsafe2"]),
-            ("drive:wide", ["typed1", "unsafe2", "exch8"]), ("drive:plain", ["typed11", "unsafe1"])],
+    "C01": [("core", ["typed1", "unsafe1", "exch8", "typed11", "typedfill", "mapt1"]), ("rel", ["typed1", "unsafe2", "mapt1"]),
+            ("drive:wide", ["typed1", "unsafe2", "exch8", "mapt42"]), ("drive:plain", ["typed11", "unsafe1"])],
     "C02": [("core", ["typed1", "unsafe1"]), ("rel", ["typed11", "unsafe1"]), ("drive:wide", ["typed1", "unsafe2"]),
             ("drive:rel2", ["typed11", "unsafe1"])],
     "C03": [("core", ["typed1", "unsafe1", "typedfill"]), ("rel", ["typed1", "unsafe1", "typed11"]), ("cache", ["typed1"]),
-            ("drive:wide", ["typed1", "unsafe2"]), ("drive:rel2", ["typed11", "unsafe1"])],
+            ("drive:wide", ["typed1", "unsafe2"]), ("drive:rel2", ["typed11", "unsafe1"]), ("drive:lock", ["typed1", "typed11", "unsafe2"])],
     "C04": [("rel", ["typed1", "unsafe1", "typed11", "unsafe2"]), ("drive:rel2", ["typed11", "unsafe1"]),
             ("drive:wide", ["typed1", "unsafe2"])],
     "C05": [("cache", ["typed1", "typed11", "unsafe1"]), ("drive:wide", ["typed1", "unsafe2"]), ("drive:rel2", ["typed11", "unsafe1"])],
@@ -252,8 +256,10 @@ PLANS = {
 PROP_CFG = {
     "C10": (dict(probes=0, misuse=10), dict(probes=0, misuse=-1)),
 }
-PLANS["C08"] = [("obsmodel", []), ("obs", ["typed1", "unsafe2", "typed11"]), ("drive:obs", ["typed1", "unsafe2", "typed11"]), ("drive:obs2", ["typed11", "unsafe1"])]
-PLANS["C09"] = [("obs", ["typed1", "unsafe2", "typed11"]), ("drive:obs", ["typed1", "unsafe2", "typed11"]), ("drive:obs2", ["typed11", "unsafe1"])]
+PLANS["C08"] = [("obsmodel", []), ("obs", ["typed1", "unsafe2", "typed11"]), ("drive:obs", ["typed1", "unsafe2", "typed11", "mapt42"]),
+                ("drive:obs2", ["typed11", "unsafe1", "mapt1"])]
+PLANS["C09"] = [("obs", ["typed1", "unsafe2", "typed11", "mapt1"]), ("drive:obs", ["typed1", "unsafe2", "typed11", "mapt42"]),
+                ("drive:obs2", ["typed11", "unsafe1", "mapt1"])]
 PROP_CFG["C08"] = (dict(probes=1), dict(probes=2))
 PROP_CFG["C09"] = (dict(probes=1), dict(probes=2))
 PLANS["C06"] = [("batch", ["typed1", "typed11", "exch8", "typed53"]), ("drive:wide", ["typed1", "exch8", "typed53"]),
@@ -263,9 +269,12 @@ PLANS["C19"] = [("core", ["typed1", "unsafe1"]), ("cache", ["typed1", "unsafe2"]
 PROP_CFG["C19"] = (dict(probes=1, stats=True), dict(probes=2, stats=True))
 PLANS["C16"] = [("cache", ["typed1", "unsafe2"]), ("drive:reset", ["typed1", "unsafe2", "typed11"]), ("drive:reset2", ["typed11", "unsafe1"])]
 PLANS["C17"] = [("dump", ["typed1", "unsafe2", "typed53"]), ("drive:reset", ["typed1", "unsafe2", "typed11", "typed53"]), ("drive:reset2", ["typed11", "unsafe1"])]
+PLANS["C11"] = [("core", ["typed1", "unsafe1", "exch8", "mapt1"]), ("batch", ["typed1", "typed53"]),
+                ("drive:mem", ["typed1", "unsafe2", "exch8", "typed11", "mapt42"]), ("drive:mem64", ["typed1", "unsafe3", "typed53"])]
 PLANS["C07"] = [("lock", ["typed1", "unsafe2", "typed11"]), ("drive:lock", ["typed1", "unsafe2", "typed11"]), ("drive:lock64", ["typed1", "unsafe1"])]
 PROP_CFG["C07"] = (dict(probes=2, misuse=8), dict(probes=4, misuse=-1))
-PLANS["C10"] = [("core", ["typed1", "unsafe1", "exch8"]), ("rel", ["typed1", "unsafe1", "typed11"])]
+PLANS["C10"] = [("core", ["typed1", "unsafe1", "exch8", "mapt1"]), ("rel", ["typed1", "unsafe1", "typed11", "mapt1"]),
+                ("drive:rel2", ["typed11", "unsafe1", "mapt42"]), ("drive:wide", ["typed1", "unsafe2", "exch8"])]
 
 
 # ------------------------------------------------------------------------------------------
@@ -1042,7 +1051,7 @@ def check_c20(ctx):
     return finish(ctx, "product traces of the four build configurations")
 
 
-REQUIRED_API = (["Map%d" % i for i in range(1, 13)] + ["Exchange%d" % i for i in range(1, 9)] + ["Filter%d" % i for i in range(0, 9)]
+REQUIRED_API = (["Map"] + ["Map%d" % i for i in range(1, 13)] + ["Exchange%d" % i for i in range(1, 9)] + ["Filter%d" % i for i in range(0, 9)]
                 + ["Observer", "Observer1", "Observer2", "Observer3", "Observer4"])
 
 
@@ -1054,7 +1063,8 @@ def check_c14(ctx):
     quick = ctx.tier == "quick"
     b = build_executor(ctx)
     variants = [("typed", b, dict(CELLS["typed11"]), {}), ("unsafe", b, dict(CELLS["unsafe1"]), {}),
-                ("typedidx", b, dict(CELLS["typed1"], perm=True), {}), ("exchange", b, dict(CELLS["exch8"]), {})]
+                ("typedidx", b, dict(CELLS["typed1"], perm=True), {}), ("exchange", b, dict(CELLS["exch8"]), {}),
+                ("mapt", b, dict(CELLS["mapt1"]), {})]
     sources = []
     for fam in (["core", "rel", "batch"] if quick else ["core", "rel", "batch", "cache", "obs", "lock"]):
         g = run_generator(ctx, fam, 600)
@@ -1064,7 +1074,7 @@ def check_c14(ctx):
         sources.append(("seq", g["seqs"], keep, dict(comps=FAMILIES[fam]["exec"]["comps"], probes=4, seed=ctx.seed, typedobs=True)))
     sources += driven_sources(ctx, b, ["arity", "wide", "rel2", "obs"], 30 if quick else 600, "typed11", dict(typedobs=True))
     for s_ in sources:
-        for k in ("path", "caps", "relst", "perm", "fill"):
+        for k in ("path", "caps", "relst", "perm", "fill", "mapt"):
             s_[-1].pop(k, None)
     cover = {}
     product_check(ctx, "C14", variants, sources, "c14", cover=cover)
@@ -1073,6 +1083,73 @@ def check_c14(ctx):
     if missing:
         raise Inconclusive("generated API variants never exercised: %s" % ", ".join(missing))
     return finish(ctx, "product traces typed vs ID-based")
+
+
+def check_c13(ctx):
+    """Concurrent queries: ArkConc.tla (vector-clock happens-before model of FilterN.Query and the world lock) is
+    checked for NoRace / distinct bits / all released / termination; the same scenarios run on the real code built
+    with the Go race detector, every goroutine's results are validated by the monitor."""
+    quick = ctx.tier == "quick"
+    for g, bits in ([(2, 2), (3, 3)] if quick else [(2, 2), (3, 3), (3, 2), (4, 4)]):
+        gen, dist, bad = run_tlc_model(ctx, "ArkConc", "mc_G == 1..%d" % g,
+                                       "SPECIFICATION Spec\nCONSTANTS\n  G <- mc_G\n  MaxBits = %d\n  HintUnderMutex = TRUE\n"
+                                       "INVARIANTS NoRace HeldBitsDistinct BitsConsistent AllReleased\nPROPERTIES Terminates\nCHECK_DEADLOCK FALSE\n" % bits,
+                                       "conc-%d-%d" % (g, bits))
+        if bad:
+            ctx.stats["design_findings"].append(dict(family="conc", invariant=bad))
+    hdir = HARNESS
+    out = os.path.join(ctx.work, "arkexec_race")
+    if os.path.realpath(REPO) != "/repo":
+        build_executor(ctx)
+        hdir = os.path.join(ctx.work, "harness")
+    shutil.copy(os.path.join(REPO, "go.sum"), os.path.join(hdir, "go.sum"))
+    p, dt = run(["go", "build", "-race", "-tags", "verif", "-o", out, "./cmd/arkexec"], 1200, env=GOENV, cwd=hdir)
+    if p.returncode != 0:
+        raise Inconclusive("race build failed:\n" + p.stdout[-2000:])
+    d = os.path.join(ctx.work, "conc")
+    os.makedirs(d, exist_ok=True)
+    jobs = []
+    runs = 6 if quick else 60
+    for ci, (cell, comps, gor) in enumerate([("typed1", ["A", "B", "R"], 8), ("typed11", ["A", "R", "S"], 16), ("unsafe2", ["A", "B", "R"], 4),
+                                              ("typed53", ["A", "B", "R"], 62)]):
+        cfg = dict(CELLS[cell], comps=comps, seed=ctx.seed * 1000 + ci, maxent=40, reuse=True)
+        lp = os.path.join(d, "log-%s.ndjson" % cell)
+        jobs.append(([out, "-conc", str(runs), "-len", str(gor), "-out", lp, "-cfg", json.dumps(cfg)], cfg, lp, "%s/%d goroutines" % (cell, gor)))
+    races = []
+
+    def one(j):
+        cmd, cfg, lp, cell = j
+        env = dict(os.environ, GORACE="halt_on_error=0 exitcode=0")
+        p, dt = run(cmd, 1200, env=env)
+        if p.returncode != 0:
+            raise Inconclusive("concurrent run failed:\n" + p.stdout[-2000:])
+        blocks = re.findall(r"WARNING: DATA RACE.*?={18}", p.stdout, re.S)
+        for b in blocks:
+            if "github.com/mlange-42/ark/ecs." in b:
+                races.append((cell, cfg, cmd, b))
+        last = [l for l in p.stdout.splitlines() if l.startswith('{"read"')]
+        return json.loads(last[-1])
+    with ThreadPoolExecutor(max_workers=4) as ex:
+        stats = list(ex.map(one, jobs))
+    for cell, cfg, cmd, b in races[:5]:
+        frames = [l.strip() for l in b.splitlines() if "mlange-42/ark/ecs." in l]
+        ctx.violations.append(dict(cls="C13.race", detail=" | ".join(frames[:4])[:400], line=0, ops=None, cfg=cfg, family="conc", cell=cell, cmd=cmd))
+    for (cmd, cfg, lp, cell), st in zip(jobs, stats):
+        shutil.copy(os.path.join(SPEC, "ArkTrace.tla"), d)
+        shutil.copy(os.path.join(SPEC, "ArkWorld.tla"), d)
+    with ThreadPoolExecutor(max_workers=MON_PAR) as ex:
+        verdicts = list(ex.map(lambda j: run_monitor(ctx, j[2]), jobs))
+    for (cmd, cfg, lp, cell), st, v in zip(jobs, stats, verdicts):
+        ctx.stats["traces"] += v["seqs"]
+        ctx.stats["events"] += v["lines"]
+        for vi in v["viol"]:
+            ctx.violations.append(dict(cls=vi["cls"], detail=vi["d"], line=vi["l"], ops=load_seq_of_log(lp, vi["seq"]), cfg=cfg, family="conc", cell=cell, cmd=cmd))
+        ctx.stats["cells"].append(dict(family="conc", cell=cell, cfg=cfg, sequences=st["executed"], events=st["events"]))
+        if not ctx.stats["samples"]:
+            with open(lp) as f:
+                ctx.stats["samples"].append(dict(family="conc", cell=cell, log_head=[json.loads(next(f)) for _ in range(2)]))
+    ctx.stats["race_reports_in_ecs"] = len(races)
+    return finish(ctx, "race detector observes the real executions; the specification supplies scenarios, HB argument and result oracle")
 
 
 def check_c18(ctx):
@@ -1102,7 +1179,7 @@ def check_c18(ctx):
     return finish(ctx, "registry model with scaled constants; conformance with the real limits")
 
 
-CHECKS = {"C18": check_c18, "C12": check_c12, "C20": check_c20, "C14": check_c14}
+CHECKS = {"C18": check_c18, "C12": check_c12, "C20": check_c20, "C14": check_c14, "C13": check_c13}
 
 
 def main(argv):
